@@ -1099,7 +1099,7 @@ Proof. intros H. rewrite rfc3_exact by exact H. destruct b, (rfc4791_comp f c); 
 Theorem match_strict_relaxed f o ob : match_spec_strict f o ob = true -> match_spec_ok f o ob = true.
 Proof.
   unfold match_spec_strict, match_spec_ok.
-  destruct (o_data o) as [c|]; [|intros H; exact H].
+  destruct (o_data o) as [c|]; [|destruct ob; intros H; try exact H; discriminate].
   destruct (rset_ok f c); [|intros H; exact H].
   destruct ob as [b| |]; intros H; [| |exact H].
   - apply Bool.eqb_prop in H. subst b. apply rfc3_admits.
@@ -1130,15 +1130,31 @@ Proof.
   intros H. rewrite !existsb_exists. intros [x [Hin Hp]]. exists x. split; [exact Hin | apply H; exact Hp].
 Qed.
 
-Theorem filter_strict_relaxed q os ob : filter_spec_strict q os ob = true -> filter_spec_ok q os ob = true.
+(** (a silent answer on a list that holds an object without data is the one thing the
+    strict verdict lets pass and the relaxed one does not: the model never gives it) *)
+Theorem filter_strict_relaxed q os ob :
+  (forall f tags u, q = Some f -> ob = FOk tags u -> existsb obj_nil os = false) ->
+  filter_spec_strict q os ob = true -> filter_spec_ok q os ob = true.
 Proof.
-  unfold filter_spec_strict, filter_spec_ok.
+  unfold filter_spec_strict, filter_spec_ok. intros Hnil.
   destruct q as [f|]; [|intros H; exact H].
   destruct (forallb (obj_rset_ok f) os); [|intros H; exact H].
   destruct ob as [tags unmod| |]; intros H; [| |exact H].
-  - apply Bool.andb_true_iff in H. destruct H as [H1 H2]. rewrite (sel_ok_strict f os tags H1), H2. reflexivity.
-  - revert H. apply existsb_impl. intros o. unfold obj_unreadable, obj_err_allowed, err_allowed.
+  - apply Bool.andb_true_iff in H. destruct H as [H1 H2].
+    rewrite (Hnil f tags unmod eq_refl eq_refl), (sel_ok_strict f os tags H1), H2. reflexivity.
+  - apply Bool.orb_true_iff. left. revert H. apply existsb_impl. intros o.
+    unfold obj_unreadable, obj_err_allowed, err_allowed.
     destruct (o_data o); [|discriminate]. intros ->. reflexivity.
+Qed.
+
+Lemma filter_loop_ok_no_nil f os l : filter_loop f os = Ok l -> existsb obj_nil os = false.
+Proof.
+  revert l. induction os as [|o os IH]; intros l H; [reflexivity|].
+  cbn [filter_loop existsb] in *. unfold match_top, obj_nil in *.
+  destruct (o_data o) as [c|]; [|discriminate].
+  destruct (match_ f c) as [v| |]; cbn [bind] in H; try discriminate.
+  destruct (filter_loop f os) as [r| |]; cbn [bind] in H; try discriminate.
+  cbn [orb]. apply (IH r). reflexivity.
 Qed.
 
 (** C06_agree_implies_spec_ok, C06_filter_agree_implies_spec_ok *)
@@ -1146,7 +1162,12 @@ Theorem match_agree_relaxed f o ob : match_agrees f o ob = true -> match_spec_ok
 Proof. intros H. apply match_strict_relaxed, match_agree_spec_ok. exact H. Qed.
 
 Theorem filter_agree_relaxed q os ob : filter_agrees q os ob = true -> filter_spec_ok q os ob = true.
-Proof. intros H. apply filter_strict_relaxed, filter_agree_spec_ok. exact H. Qed.
+Proof.
+  intros H. apply filter_strict_relaxed; [|apply filter_agree_spec_ok; exact H].
+  intros f tags u -> ->. unfold filter_agrees in H. cbn [filter_objs] in H.
+  destruct (filter_loop f os) as [l| |] eqn:E; try discriminate.
+  eapply filter_loop_ok_no_nil. exact E.
+Qed.
 
 (** the model of the unchanged code meets the relaxed specification on every input
     ([Err 0] is the model's "the oracle data do not tell", never a Go outcome) *)
